@@ -113,10 +113,10 @@ class AddLineUnknownVersion(Contract):
                                        z3.BoolVal(n("queued") == 0 and n("processed") == 0 and n("connected") == 0 and n("merged") == 0))
                     return z3.And(z3.BoolVal(issubclass(v.cls, g.Error)), unchanged, z3.Not(parse_ok) if gh.get("failed_at") == "parse" else z3.Not(merge_ok))
                 nh = st.attrs(s).get("_n_input_header_lines")
-                return z3.And(z3.BoolVal(v.cls is g.VersionError), rt == sv("H"), has_vn, vn != sv("1.0"), vn != sv("2.0"), vl > 0,
+                return z3.And(z3.BoolVal(v.cls is g.VersionError), rt == sv("H"), has_vn, vn != sv("1.0"), vn != sv("2.0"),            # at EVERY level: only 1.0 and 2.0 name a version
                               # (C08) the unsupported version is refused before anything of the line is kept
                               ver_eq(None), S(nh) == nh0, z3.BoolVal(n("merged") == 0 and n("processed") == 0 and n("queued") == 0))
-            version_ok = z3.If(rt == sv("H"), z3.If(has_vn, z3.If(vn == sv("1.0"), ver_eq("gfa1"), z3.If(vn == sv("2.0"), ver_eq("gfa2"), z3.BoolVal(True))), ver_eq(None)),
+            version_ok = z3.If(rt == sv("H"), z3.If(has_vn, z3.If(vn == sv("1.0"), ver_eq("gfa1"), z3.If(vn == sv("2.0"), ver_eq("gfa2"), z3.BoolVal(False))), ver_eq(None)),
                          z3.If(rt == sv("S"), ver_eq(segv), z3.If(isrt(*GFA2_ONLY), ver_eq("gfa2"), ver_eq(None))))
             decides = z3.Or(rt == sv("S"), isrt(*GFA2_ONLY), z3.And(rt == sv("H"), has_vn))
             queued_kind = z3.Not(isrt("#", "H", "S", *GFA2_ONLY))
@@ -136,3 +136,59 @@ class AddLineUnknownVersion(Contract):
                      replay=lambda w: {"target": "bounded.replay_helpers:add_line_unknown_version",
                                        "args": [w["rt"], w["vlevel"], w["VN"], w["header_has_VN"], w["segment_version"], w.get("line_can_be_parsed", True), w.get("header_can_be_merged", True)]},
                      confirm=battery_confirm)]
+
+
+def _known_version_contract(own, other, fname, own_vn, other_only, own_rts):
+    class AddLineKnown(Contract):
+        id = "AddLineVersion_" + own
+        fn = "gfapy/lines/creators.py::Creators." + fname
+        props = ("C13", "C18", "C08")
+        fragment = "H"
+        doc = ("a line given as text to a Gfa whose version is %s: a header is merged iff it names no version or %s - any other VN (also one that "
+               "merely begins like it) is refused with VersionError before anything is kept; a segment written in the %s syntax is refused with "
+               "VersionError before it is connected; every other record of this version is connected once; the line is built with the Gfa's "
+               "validation level and dialect%s" % (own, own_vn, other, "" if own == "gfa2" else ", a non-segment record explicitly as gfa1"))
+
+        def cases(self, ctx):
+            g = ctx.gfapy
+            rt, prt = enum("rt", ["H", "S", "#"] + own_rts)
+            vl = z3.Int("vlevel")
+            vn = z3.String("VN")
+            has_vn = z3.Bool("header_has_VN")
+            segv, pv = enum("segment_version", ["gfa1", "gfa2"])
+            s = Obj(g.Gfa, "gfa")
+            hdr = Obj(g.line.Header, "header")
+            dialect = Obj(None, "dialect")
+            nh0 = z3.Int("nh")
+            heap = {s.oid: {"_vlevel": vl, "_dialect": dialect, "_version": own, "_version_explanation": None, "_n_input_header_lines": nh0, "header": hdr}, hdr.oid: {}, dialect.oid: {}}
+            text = LineText(rt)
+            def ev(st, what):
+                return st.with_ghost("events", tuple(st.ghost.get("events", ())) + (what,))
+            def m_line_ctor(E, st, pos_, kw):
+                ln = Obj(g.Line, "built")
+                ok = ("vlevel" in kw and kw["vlevel"] is vl) and kw.get("dialect") is dialect
+                st2 = ev(st, "built" if ok else "built-with-other-level-or-dialect").with_ghost("version_kw", kw.get("version"))
+                st2 = st2.setattr(ln, "VN", Opt(z3.Not(has_vn), vn)).setattr(ln, "version", segv).setattr(ln, "record_type", rt)
+                yield ("val", ln, [], st2)
+            models = {g.Line: m_line_ctor,
+                      ctx.fn("gfapy/line/common/connection.py::Connection.connect"): (lambda E, st, pos_, kw: iter([("val", None, [], ev(st, "connect"))])),
+                      ctx.fn("gfapy/line/header/multiline.py::Multiline._merge"): (lambda E, st, pos_, kw: iter([("val", None, [], ev(st, "merge"))]))}
+            bad_vn = z3.And(rt == sv("H"), has_vn, vn != sv(own_vn))
+            bad_seg = z3.And(rt == sv("S"), segv == sv(other))
+            def post(k, v, st):
+                e = tuple(st.ghost.get("events", ()))
+                nh = st.attrs(s).get("_n_input_header_lines")
+                if k == "raise":
+                    return z3.And(z3.BoolVal(v.cls is g.VersionError and e == ("built",)), z3.Or(bad_vn, bad_seg), S(nh) == nh0)
+                want_kw = z3.If(rt == sv("S"), z3.BoolVal(st.ghost.get("version_kw") is None), z3.BoolVal(st.ghost.get("version_kw") == own))
+                return z3.And(z3.Not(bad_vn), z3.Not(bad_seg), want_kw,
+                              z3.If(rt == sv("H"), z3.And(z3.BoolVal(e == ("built", "merge")), S(nh) == nh0 + 1),
+                                    z3.And(z3.BoolVal(e == ("built", "connect")), S(nh) == nh0)))
+            return [Case("text", [s, text], post, pre=[prt, pv, vl >= 0, vl <= 3, z3.Length(vn) >= 1], heap=heap, models=models,          # (a Z tag has at least one character)
+                         symbols=dict(rt=rt, vlevel=vl, VN=vn, header_has_VN=has_vn, segment_version=segv), minimize=[vl])]
+    AddLineKnown.__name__ = AddLineKnown.id
+    return register(AddLineKnown)
+
+
+_known_version_contract("gfa1", "gfa2", "_Creators__add_line_GFA1", "1.0", GFA2_ONLY, ["L", "C", "P"])
+_known_version_contract("gfa2", "gfa1", "_Creators__add_line_GFA2", "2.0", ["L", "C", "P"], GFA2_ONLY + ["X"])
